@@ -175,7 +175,21 @@ func c14(e *Env) {
 	// ---- R2 order determinism
 	ob2 := r.Ob("R2", "TempDir:order", "every map feeding the pre-image is traversed in sorted key order (no direct map range reaches the hash or the prefix)")
 	badOrder := ""
+	// the result: every return of TempDir (the short and the folded name may be two return statements)
 	full := sy.InFunc(td, ret.Results[0])
+	{
+		var alts []*core.Sym
+		for _, b := range td.Blocks {
+			for _, in := range b.Instrs {
+				if rt, ok := in.(*ssa.Return); ok && len(rt.Results) == 1 {
+					alts = append(alts, sy.InFunc(td, rt.Results[0]))
+				}
+			}
+		}
+		if len(alts) > 1 {
+			full = &core.Sym{Op: "phi", Name: "returns", Args: alts}
+		}
+	}
 	for _, z := range []*core.Sym{pre, full} {
 		z.Walk(func(w *core.Sym) bool {
 			if w.Op == "rangekey" || w.Op == "rangeval" {
@@ -267,7 +281,7 @@ func (e *Env) tempDirIdentity(td *ssa.Function) *tdIdentity {
 	// by helper functions
 	// by helper functions. Helpers that collect the keys of a map into a slice stay opaque: R2 checks that they sort.
 	sy := p.NewSymbolizer(func(f *ssa.Function) bool {
-		return (f.Object() == nil || !f.Object().Exported()) && !(rangesMap(f) && returnsSlice(f))
+		return isPrivateFunc(f) && !(rangesMap(f) && returnsSlice(f))
 	})
 	sy.MaxDepth = 10
 	g := e.XG(td)
@@ -473,26 +487,36 @@ func (e *Env) c14Shape(g *core.XG, sy *core.Symbolizer, td *ssa.Function, full, 
 	r := e.R
 	_ = e.P
 	ob := r.Ob("R4", "TempDir:template", "the name is <prefix> \".\" hex(sha1(pre-image)): one hash of the whole identity, hex encoded")
-	fl := full.Flat()
-	last := fl[len(fl)-1]
-	isHex := isCallSym(last, "encoding/hex.EncodeToString") || (last.Op == "call" && last.Name == "fmt%x")
-	if isHex {
-		// what is rendered is the SHA-1 digest: a [20]byte value, or the Sum of a hash.Hash
-		isDigest := false
-		last.Walk(func(z *core.Sym) bool {
-			if z.Val != nil {
-				if ts := z.Val.Type().String(); strings.Contains(ts, "[20]byte") || strings.Contains(ts, "hash.Hash") {
+	fullAlts := full.Alts(8)
+	if len(fullAlts) == 0 {
+		fullAlts = []*core.Sym{full}
+	}
+	okTpl := true
+	for _, alt := range fullAlts {
+		fl := alt.Flat()
+		last := fl[len(fl)-1]
+		isHex := isCallSym(last, "encoding/hex.EncodeToString") || (last.Op == "call" && last.Name == "fmt%x")
+		if isHex {
+			// what is rendered is the SHA-1 digest: a [20]byte value, or the Sum of a hash.Hash
+			isDigest := false
+			last.Walk(func(z *core.Sym) bool {
+				if z.Val != nil {
+					if ts := z.Val.Type().String(); strings.Contains(ts, "[20]byte") || strings.Contains(ts, "hash.Hash") {
+						isDigest = true
+					}
+				}
+				if z.Op == "call" && strings.Contains(z.Name, "crypto/sha1.") {
 					isDigest = true
 				}
-			}
-			if z.Op == "call" && strings.Contains(z.Name, "crypto/sha1.") {
-				isDigest = true
-			}
-			return !isDigest
-		})
-		isHex = isDigest
+				return !isDigest
+			})
+			isHex = isDigest
+		}
+		// (a constant prefix and the dot may be merged into one literal, "_scipipe_tmp.")
+		if !(len(fl) >= 2 && isHex && fl[len(fl)-2].Op == "lit" && strings.HasSuffix(fl[len(fl)-2].Lit, ".")) {
+			okTpl = false
+		}
 	}
-	okTpl := len(fl) >= 3 && fl[len(fl)-2].Op == "lit" && strings.HasSuffix(fl[len(fl)-2].Lit, ".") && isHex
 	ob.Check(okTpl, where, full.Template(), "result template is "+trunc(full.Template(), 200)+", not <prefix>.<hex of the hash>")
 	// no nondeterministic source
 	obS := r.Ob("R4", "TempDir:no-clock-or-random", "no clock, random or temp-file value enters the temp-dir name")
@@ -525,11 +549,20 @@ func (e *Env) c14Shape(g *core.XG, sy *core.Symbolizer, td *ssa.Function, full, 
 			for a.Op == "call" && a.Name == "convert" && len(a.Args) == 1 {
 				a = a.Args[0]
 			}
-			if a.Op == "elem" || a.Op == "rangeval" {
-				continue
+			if (a.Op == "elem" || a.Op == "rangeval") && !(len(a.Args) > 0 && a.Args[0].Op == "list") {
+				continue // (an element of a literal argument list - a variadic helper called with the piece - does count)
 			}
 		}
-		for _, pc := range appendedPieces(&core.Sym{Op: "call", Name: "builtin.append", Args: []*core.Sym{{Op: "nil"}, sy.InCtx(n.Ctx, argV)}}) {
+		argSym := sy.InCtx(n.Ctx, argV)
+		if isAccWrite[n] {
+			// an element of a literal argument list stands for each listed value
+			var alts []*core.Sym
+			for _, alt := range argSym.DeepAlts(6) {
+				alts = append(alts, alt)
+			}
+			argSym = &core.Sym{Op: "list", Args: alts}
+		}
+		for _, pc := range appendedPieces(&core.Sym{Op: "call", Name: "builtin.append", Args: []*core.Sym{{Op: "nil"}, argSym}}) {
 			ps := pc.String()
 			if ps != "$t.Name" && strings.Contains(ps, "$t.Name") && strings.Contains(ps, "ReplaceAllString") {
 				fold = n
@@ -555,15 +588,21 @@ func (e *Env) c14Shape(g *core.XG, sy *core.Symbolizer, td *ssa.Function, full, 
 		} else {
 			// fallback prefix
 			alts := []string{}
-			fl[0].Walk(func(z *core.Sym) bool {
-				if z.Op == "phi" {
-					for _, a := range z.Args {
-						alts = append(alts, a.String())
-					}
-					return false
+			for _, fa := range fullAlts {
+				ffl := fa.Flat()
+				if len(ffl) == 2 && ffl[0].Op == "lit" && strings.HasSuffix(ffl[0].Lit, ".") {
+					alts = append(alts, fmt.Sprintf("%q", strings.TrimSuffix(ffl[0].Lit, ".")))
 				}
-				return true
-			})
+				ffl[0].Walk(func(z *core.Sym) bool {
+					if z.Op == "phi" {
+						for _, a := range z.Args {
+							alts = append(alts, a.String())
+						}
+						return false
+					}
+					return true
+				})
+			}
 			short := false
 			for _, a := range alts {
 				if strings.HasPrefix(a, "\"") && !strings.Contains(a, "+") && len(a) < 40 {
@@ -592,9 +631,13 @@ func (e *Env) c14Shape(g *core.XG, sy *core.Symbolizer, td *ssa.Function, full, 
 			walk(a, inside)
 		}
 	}
-	for _, part := range fl[:max(0, len(fl)-1)] {
-		walk(part, false)
+	for _, fa := range fullAlts {
+		ffl := fa.Flat()
+		for _, part := range ffl[:max(0, len(ffl)-1)] {
+			walk(part, false)
+		}
 	}
+	// (an alternative whose readable part is a constant contains no name to sanitise)
 	if sanCall == nil || nameOutside {
 		obZ.Fail(where, "the process name enters the temp-dir prefix without passing through the sanitiser")
 		return
